@@ -45,8 +45,8 @@ PROBES = ["kind:p2pk", "kind:p2pkh", "kind:multisig", "kind:p2sh-multisig", "kin
           "wire_hex", "wire_bin", "wire_unspents", "txid_stable_after_witness_sign", "digest_at_seam_checked",
           "sighash_direct_256", "codeseparator_script", "noncommitted_change_still_valid", "committed_change_invalidates",
           "revalidate_fresh_equal", "default_flags_verdict_checked", "inputs>=253", "spendable_form_text", "spendable_form_dict", "spendable_form_bin", "wire_big_inputs", "wire_big_outputs",
-          "wire_big_out_script", "wire_big_in_script", "wire_big_witness_item", "wire_big_witness_count", "wire_tx_witness",
-          "wire_tx_witness_only_empty_items", "wire_tx_unspents"]
+          "wire_big_out_script", "wire_big_in_script", "wire_big_witness_item", "wire_big_witness_count"]
+# (wire_tx_* probes are fired by the wire_tx step, which only the S-WIRE planner emits; they are declared there)
 
 _STD = None
 
